@@ -99,6 +99,7 @@ fn main() {
         "remote_proxy" => auth::proxy(&args),
         "node_sessions" => auth::sessions(&args),
         "node_commit" => auth::commit(&args),
+        "node_check" => auth::check_candidate(&args),
         "elect" => cluster::elect(&args),
         "elect_search" => cluster::elect_search(&args),
         "frame_len" => cluster::frame_len(&args),
